@@ -389,7 +389,9 @@ def flat(effects):
     """Yield (effect, guard) with foreach bodies unfolded (guard = z3 Bool over the bound index, or True)."""
     for e in effects:
         if e.kind == "foreach":
+            rng = z3.And(e.data["g"] >= 0, e.data["g"] < e.data["hi"], e.data["cond"],
+                         *[z3.And(fg >= 0, fg < fhi, fc) for (_l, _p, fhi, fg, fc) in e.data.get("outer", ())])
             for b, gd in flat(e.data["body"]):
-                yield b, z3.And(e.data["cond"], gd) if not z3.is_true(gd) else e.data["cond"]
+                yield b, z3.And(rng, gd) if not z3.is_true(gd) else rng
         else:
             yield e, TRUE
